@@ -46,6 +46,10 @@ class Response(Exception):
         return "%s %s" % (self.code, self.data)
 
 
+class _PreparedLiteral(bytes):
+    """A command argument already formatted as a literal ({n+} CRLF data)."""
+
+
 class Literal(Exception):
     def __init__(self, value):
         self.value = value
@@ -219,8 +223,10 @@ class Client:
     def __prepare_args(self, args: List[Any]) -> List[bytes]:
         """Format command arguments before sending them.
 
-        Command arguments of type string must be quoted, the only
-        exception concerns size indication (of the form {\d\+?}).
+        Command arguments of type string must be quoted (with quotes
+        and backslashes escaped) or, when they hold characters a quoted
+        string can't, sent as literals. Content prepared by
+        __prepare_content is already a literal.
 
         :param args: list of arguments
         :return: a list for transformed arguments
@@ -228,10 +234,13 @@ class Client:
         ret = []
         for a in args:
             if isinstance(a, bytes):
-                if self.__size_expr.match(a):
+                if isinstance(a, _PreparedLiteral):
                     ret += [a]
+                elif b"\r" in a or b"\n" in a or b"\0" in a:
+                    ret += [b"{%d+}%s%s" % (len(a), CRLF, a)]
                 else:
-                    ret += [b'"' + a + b'"']
+                    escaped = a.replace(b"\\", b"\\\\").replace(b'"', b'\\"')
+                    ret += [b'"' + escaped + b'"']
                 continue
             ret += [bytes(str(a).encode("utf-8"))]
         return ret
@@ -246,7 +255,7 @@ class Client:
         :return: transformed script as bytes
         """
         bcontent: bytes = content.encode("utf-8")
-        return b"{%d+}%s%s" % (len(bcontent), CRLF, bcontent)
+        return _PreparedLiteral(b"{%d+}%s%s" % (len(bcontent), CRLF, bcontent))
 
     def __send_command(
         self,
